@@ -129,7 +129,8 @@ ASSUMPTIONS = [
     "the registry only grows or replaces (there is no API to forget a type)",
 ]
 RULE = ("corpus, then a fixed family (every leaf, every class empty / holding every leaf kind, list nestings to depth 6, "
-        "every registered type, every class in one list, string leaves whose content is JSON text (documents of every JSON type, "
+        "every registered type, every class in one list, serialisable objects that are also ITERABLE (container-like / one-shot iterator / "
+        "unpacking-support serializer classes and registered types, empty and non-empty, top level / list element / field value / nested), string leaves whose content is JSON text (documents of every JSON type, "
         "with/without surrounding blanks, compact/indented, the dumped form of every class of the zoo, near misses) at top level / "
         "as list element / as field value / as registered payload, classes sharing one __name__ across three modules side by side / "
         "nested in every order, DAG-shaped values in which one list / one object is referenced from several places, registry "
@@ -265,8 +266,64 @@ class Cat(Animal):
         return data
 
 
-GENERIC = [Node, NodeA, NodeAA, NodeAAA, NodeAAAA, NodeB, NodeBA, NodeM]
-FIXED = [Animal, Dog, Bulldog, Cat]
+# serialisable objects that are ALSO iterable (container-like objects; `x, y = v` unpacking support) -------------------
+# Being iterable is not part of the JSON convention: an object with a serializer of its own is written through that
+# serializer — tag and named fields — whatever other protocols it implements (`__iter__`, `__len__`, `__getitem__`).
+# The model does not see these protocols at all; the classes below are ordinary members of the zoo for it.
+
+
+class Bag(Node):  # generic container-like object: iterates over its items (field values), sized, indexable
+    def __iter__(self):
+        return iter(list(self.fields.values()))
+
+    def __len__(self):
+        return len(self.fields)
+
+    def __getitem__(self, i):
+        return list(self.fields.values())[i]
+
+
+class IterMixin:  # the iteration protocol comes from a mixin that precedes the serializer in the MRO
+    def __iter__(self):
+        return iter(sorted(self.fields))
+
+
+class KeyedBag(IterMixin, NodeAA):  # mapping-like without being a Mapping: iterates over its field NAMES
+    pass
+
+
+class Stream(NodeB):  # a one-shot iterator object (`__next__`), always exhausted at once
+    def __iter__(self):
+        return self
+
+    def __next__(self):
+        raise StopIteration
+
+
+@dataclass(eq=False)
+class Pair(Animal):  # dataclass style with unpacking support: `name, age = pair`
+    def __iter__(self):
+        yield self.name
+        yield self.age
+
+
+@dataclass(eq=False)
+class Polyline(Pair):  # container-like dataclass: iterates over its points only, has other fields as well
+    points: Any = None
+
+    def to_json(self):
+        data = super().to_json()
+        data.update({"points": to_json(self.points)})
+        return data
+
+    def __iter__(self):
+        return iter(self.points if type(self.points) is list else [])
+
+
+ITERABLE_SER = [Bag, KeyedBag, Stream, Pair, Polyline]
+
+GENERIC = [Node, NodeA, NodeAA, NodeAAA, NodeAAAA, NodeB, NodeBA, NodeM, Bag, KeyedBag, Stream]
+FIXED = [Animal, Dog, Bulldog, Cat, Pair, Polyline]
 SER_CLASSES = GENERIC + FIXED
 
 
@@ -302,6 +359,36 @@ class Money2(Money):  # the registry is keyed by exact type: a subclass needs (a
     pass
 
 
+class Vec:  # a registered third-party vector type that supports unpacking (`x, y = v`): iterable, sized, indexable
+    def __init__(self, s: str):
+        self.s = s
+
+    def _parts(self):
+        return [p for p in self.s.split(",") if p]
+
+    def __iter__(self):
+        return iter(self._parts())
+
+    def __len__(self):
+        return len(self._parts())
+
+    def __getitem__(self, i):
+        return self._parts()[i]
+
+    def __eq__(self, other):
+        return type(self) is type(other) and self.s == other.s
+
+    __hash__ = None
+
+
+class Chars(Money):  # a registered subclass of a registered type that iterates over the characters of its payload
+    def __iter__(self):
+        return iter(self.s)
+
+
+ITERABLE_EXT = [Vec, Chars]
+
+
 def _mk_ser(cls, payload):
     def ser(obj):
         return {JSON_TYPE_NAME: cls.__module__ + "." + cls.__name__, "value": payload(obj)}
@@ -327,6 +414,8 @@ EXT: Dict[type, Tuple[Any, Any]] = {
     Fraction: (str, Fraction),
     Money: (lambda o: o.s, Money),
     Money2: (lambda o: o.s, Money2),
+    Vec: (lambda o: o.s, Vec),
+    Chars: (lambda o: o.s, Chars),
 }
 for _t, (_p, _b) in EXT.items():
     if _t is not uuid.UUID:
@@ -436,7 +525,7 @@ SER_CLASSES = GENERIC + FIXED
 for _t in (MOD_A.Money, MOD_B.Money):
     EXT[_t] = ((lambda o: o.s), _t)
     JSONSerializableTypeRegistry().register(_t, _mk_ser(_t, EXT[_t][0]), _mk_deser(_t, _t))
-EXT_MONEY = [Money, Money2, MOD_A.Money, MOD_B.Money]  # registered types whose deserializer accepts any string
+EXT_MONEY = [Money, Money2, MOD_A.Money, MOD_B.Money, Vec, Chars]  # registered types whose deserializer accepts any string
 
 # groups of distinct classes sharing one __name__
 SAME_NAME = [
@@ -513,6 +602,63 @@ JSONSerializableTypeRegistry().register(
     RegisteredNode, lambda obj: obj.to_json(), _mk_deser(RegisteredNode, lambda v: RegisteredNode(value=v)))
 
 
+# never-registered classes that SHARE `__module__ + "." + __name__` with a registered type (C19) -----------------------
+# The identity of a class is the class OBJECT. Distinct classes can carry one qualified name: the pure-Python twin of a
+# C type (`_pydecimal.Decimal.__module__ == "decimal"`), a nested class re-exported at module level, a class made by
+# `type(name, …)` / a factory and bound to another attribute, a class object left over from before a module reload,
+# a class that another module re-exports under its own attribute name. None of them was ever registered, so a tag
+# that names one of them (through the attribute it is reachable under) is not deserialisable.
+import decimal as _decimal  # noqa: E402
+
+EXT[_decimal.Decimal] = (str, _decimal.Decimal)  # a registered C type that has a pure-Python twin in the stdlib
+JSONSerializableTypeRegistry().register(_decimal.Decimal, _mk_ser(_decimal.Decimal, str), _mk_deser(_decimal.Decimal, _decimal.Decimal))
+
+IDENT_OVERRIDE: Dict[type, str] = {}  # class -> identity in case lines, where module:qualname would not tell it apart
+TWINS: List[Tuple[str, str, type, type]] = []  # (module, attribute) it is reachable under, the twin, the registered class
+
+
+def _payload_init(self, s: str = ""):
+    self.s = s
+
+
+def _add_twin(mod: types.ModuleType, attr: str, of: type, bases=(), twin: Optional[type] = None) -> type:
+    if twin is None:
+        twin = type(of.__name__, tuple(bases), {"__init__": _payload_init, "__module__": of.__module__, "__hash__": None})
+    assert twin is not of and twin.__module__ == of.__module__ and twin.__name__ == of.__name__
+    setattr(mod, attr, twin)
+    IDENT_OVERRIDE[twin] = f"{mod.__name__}:{attr}"
+    TWINS.append((mod.__name__, attr, twin, of))
+    return twin
+
+
+class Legacy:  # nested classes, re-exported at module level below
+    class Money2:
+        pass
+
+    class Vec:
+        def __iter__(self):
+            return iter(())
+
+
+_THIS = sys.modules[__name__]
+_add_twin(_THIS, "MoneyTwin", Money)  # `type("Money", …)` bound to another attribute of the same module
+_add_twin(_THIS, "LegacyMoney2", Money2, twin=Legacy.Money2)  # nested class re-exported at module level
+_add_twin(_THIS, "LegacyVec", Vec, twin=Legacy.Vec)
+_add_twin(_THIS, "MoneyBeforeReload", Money, bases=(Money,))  # a SUBCLASS carrying its registered base's name
+_add_twin(_THIS, "RegisteredNodeTwin", RegisteredNode)  # plain class named like a registered serializer class
+_add_twin(_THIS, "NodeTwin", Node)  # plain class named like a serializer class (nothing registered under that name)
+_add_twin(MOD_A, "UUIDReexport", uuid.UUID)  # another module re-exports a class that calls itself uuid.UUID
+_add_twin(MOD_A, "MoneyOfB", MOD_B.Money)  # … and one that calls itself like a registered class of a third module
+_add_twin(MOD_B, "Fraction", Fraction)  # reachable under the same attribute NAME in another module
+try:
+    import _pydecimal  # noqa: E402
+    if _pydecimal.Decimal is not _decimal.Decimal and _pydecimal.Decimal.__module__ == "decimal":
+        IDENT_OVERRIDE[_pydecimal.Decimal] = "_pydecimal:Decimal"
+        TWINS.append(("_pydecimal", "Decimal", _pydecimal.Decimal, _decimal.Decimal))
+except ImportError:  # pragma: no cover
+    pass
+
+
 def implements_from_json(cls) -> bool:
     return getattr(cls._from_json, "__func__", None) is not SubclassJSONSerializer._from_json.__func__
 
@@ -534,6 +680,8 @@ ALIAS: Dict[type, Tuple[str, str, str]] = {}  # real history class -> (ident, mo
 def ident(cls) -> str:
     if cls in ALIAS:
         return ALIAS[cls][0]
+    if cls in IDENT_OVERRIDE:
+        return IDENT_OVERRIDE[cls]
     return f"{cls.__module__}:{cls.__qualname__}"
 
 
@@ -1016,7 +1164,7 @@ def gen_ext(rng):
         return Fraction(rng.randrange(-50, 50), rng.randrange(1, 40))
     if k == 2:
         return Money(rng.choice(STRS))
-    return rng.choice(EXT_MONEY[1:])(rng.choice(["", "12.50 EUR", "ü"]))
+    return rng.choice(EXT_MONEY[1:])(rng.choice(["", "12.50 EUR", "ü", "0.5,-2.0", "1,2,3"]))
 
 
 def gen_value(rng, depth: int, pool: Optional[list] = None, extra=(), share: float = 0.12, jtext: float = 0.3):
@@ -1100,10 +1248,33 @@ def fixed_family() -> List[Case]:
         out.append(make_case(v, ("object-nesting",), "exhaustive"))
     out.append(make_case([cls() if cls in GENERIC else _mk(cls, 1) for cls in SER_CLASSES] + exts, ("all-classes",), "exhaustive"))
     out.append(make_case([[NodeA(x=[Dog("d", [Cat(None, 1.5, [])], NodeM())])], []], ("mixed",), "exhaustive"))
+    out += iterable_family()
     out += same_name_family()
     out += shared_family()
     out += history_family()
     out += json_text_family()
+    return out
+
+
+def iterable_family() -> List[Case]:
+    """objects with a serializer of their own that are ALSO iterable (container-like serializer classes, one-shot
+    iterators, dataclasses / registered vector types with unpacking support): empty and non-empty, at top level, as
+    list element, as field value of a generic / dataclass-style object, nested in each other, shared"""
+    out = []
+    tag = ("iterable-object",)
+    items = [[], [1], [1.5, "a"], [None, [2]]]
+    objs = []
+    for it in items:
+        objs += [Bag(**{f"k{i}": x for i, x in enumerate(it)}), KeyedBag(**{f"k{i}": x for i, x in enumerate(it)}),
+                 Stream(**{f"k{i}": x for i, x in enumerate(it)}), Polyline("p", len(it), list(it))]
+    objs += [Pair(0.5, -2.0), Pair("x", None), Polyline("p", 0, None), Polyline([1], [2], [Pair(1, 2), Pair(3, 4)]),
+             Vec(""), Vec("0.5,-2.0"), Vec("1,2,3"), Chars(""), Chars("ab"), Bag(a=Bag(b=Vec("1,2"))), Bag(a=[Pair(1, [Chars("c")])])]
+    for v in objs:
+        out.append(make_case(v, tag, "exhaustive"))
+        out.append(make_case([v], tag, "exhaustive"))
+        out.append(make_case([0, [v, None], v], tag, "exhaustive"))
+        out.append(make_case(NodeA(a=v), tag, "exhaustive"))
+        out.append(make_case(Dog("d", v, [v]), tag, "exhaustive"))
     return out
 
 
